@@ -50,53 +50,42 @@ def decConsts (j : Json) : Except String (Consts F) := do
     T_eq := ← num c "T_eq", T_eq_l := ← num c "T_eq_l", hl := ← num c "hl", b := ← num c "b",
     V := ← num c "V" }
 
-/-- `kb` either given, or computed from `a`, `c`, `xi` as the code does -/
-def decKb (j : Json) : Except String (List F) := do
-  match optFld j "kb" with
-  | some _ => nums j "kb"
-  | none =>
-    let a : F ← num j "a"
-    let c : F ← num j "c"
-    let xi : List F ← nums j "xi"
-    return xi.map (kbOf a c)
-
-/-- shelf coefficients: given (`kShelf`), or derived as the code does from `s0`, `sRel`,
-the recorded `normals`, `nz` and the number of vials -/
-def decShelf (j : Json) (n : Nat) : Except String (List F) := do
-  match optFld j "kShelf" with
-  | some _ => nums j "kShelf"
-  | none =>
-    let s0 : F ← num j "s0"
-    let sRel : Option F ← match optFld j "sRel" with
-      | none => pure none
-      | some v => do let x : F ← Wire.dec v; pure (some x)
-    let normals : List F ← nums j "normals"
-    let nz ← nat j "nz"
-    return shelfCoeffs nz n s0 sRel normals
-
-/-- interaction structure: given (`nbrs`, `ext`), or computed from the declared arrangement
-and shape (`arr`, `shape = [nx, ny, nz]`) -/
-def decGeom (j : Json) : Except String (List (List Nat) × List Int) := do
-  match optFld j "nbrs" with
-  | some _ => return (← decNatLists j "nbrs", ← ints j "ext")
-  | none =>
-    let arr := Snow.Topology.Arr.ofString (← str j "arr")
-    let sh ← nats j "shape"
-    match sh with
-    | [nx, ny, nz] => return (nbrsOf arr nx ny nz, extOf arr nx ny nz)
-    | _ => throw "shape must be [nx, ny, nz]"
-
+/-- `Params` of a request. The per-vial quantities are either given explicitly (`kb`, `kShelf`,
+`nbrs`+`ext`) or — as the harness does — CONSTRUCTED by the model from what the user configured:
+`Params.withXi` (k_v from a, c, ξ_v), `Params.withShelf` (shelf coefficients from s0,
+s_sigma_rel and the recorded normals), `Params.withShape` (interaction structure of the declared
+arrangement and shape). -/
 def decParams (j : Json) : Except String (Params F) := do
   let ii ← str j "initIce"
   let initIce ← match InitIce.ofString ii with
     | some x => pure x
     | none => throw "ValueError: initIce must be direct or indirect"
-  let (nbrs, ext) ← decGeom j
-  return {
-    c := ← decConsts j, nbrs := nbrs, ext := ext,
-    kInt := ← num j "kInt", kExt := ← num j "kExt", kShelf := ← decShelf j ext.length,
-    A := ← num j "A", kb := ← decKb j, dt := ← num j "dt", threshold := ← num j "threshold",
+  let p0 : Params F := {
+    c := ← decConsts j, nbrs := [], ext := [],
+    kInt := ← num j "kInt", kExt := ← num j "kExt", kShelf := [],
+    A := ← num j "A", kb := [], dt := ← num j "dt", threshold := ← num j "threshold",
     initIce := initIce }
+  -- interaction structure
+  let p1 ← match optFld j "nbrs" with
+    | some _ => pure { p0 with nbrs := ← decNatLists j "nbrs", ext := ← ints j "ext" }
+    | none =>
+      let arr := Snow.Topology.Arr.ofString (← str j "arr")
+      match ← nats j "shape" with
+      | [nx, ny, nz] => pure (p0.withShape arr nx ny nz)
+      | _ => throw "shape must be [nx, ny, nz]"
+  let n := p1.ext.length
+  -- nucleation prefactors
+  let p2 ← match optFld j "kb" with
+    | some _ => pure { p1 with kb := ← nums j "kb" }
+    | none => pure (p1.withXi (← num j "a") (← num j "c") (← nums j "xi"))
+  -- shelf coefficients
+  match optFld j "kShelf" with
+  | some _ => return { p2 with kShelf := ← nums j "kShelf" }
+  | none =>
+    let sRel : Option F ← match optFld j "sRel" with
+      | none => pure none
+      | some v => do let x : F ← Wire.dec v; pure (some x)
+    return p2.withShelf (← nat j "nz") n (← num j "s0") sRel (← nums j "normals")
 
 def fabs (x : F) : F := if x < 0 then -x else x
 def fmax (x y : F) : F := if x < y then y else x
